@@ -50,6 +50,9 @@ pub struct DFile {
     /// 0 modified in place, 1 renamed (old path differs), 2 new file, 3 untouched
     pub fate: u8,
     pub no_trailing_newline: bool,
+    /// the OLD state of the file does not end with a newline (git then prints `\ No newline at end of file` inside the hunk)
+    #[serde(default)]
+    pub old_no_trailing_newline: bool,
 }
 
 #[derive(Clone, Debug, Serialize, Deserialize, Hash, PartialEq, Eq)]
@@ -155,8 +158,11 @@ pub fn expectation(fd: Option<&FileDiff>, lines: (usize, usize, usize, usize), s
                 clear = false;
             }
         } else {
-            for (n, _) in &g.added {
-                if !same_comment && s2 < *n && *n < e1 {
+            for (n, text) in &g.added {
+                // an added line that repeats the old file's unterminated last line differs from it in the line
+                // terminator only: whether that is an "edit" of the line is not stated
+                let terminator_only = g.old_eof_marker && g.removed.last().is_some_and(|(_, old)| old == text);
+                if !same_comment && s2 < *n && *n < e1 && !terminator_only {
                     must = true;
                 }
                 if *n + 1 >= s1 && *n <= e2 + 1 {
@@ -265,7 +271,10 @@ pub fn state_pair(c: &DriftCase, w: &World) -> StatePair {
     let mut files = vec![];
     for (i, f) in c.files.iter().enumerate() {
         let new = w.new_text[i].clone();
-        let old = gitcase::old_text(&new, &f.edits, c.hostile, &variant);
+        let mut old = gitcase::old_text(&new, &f.edits, c.hostile, &variant);
+        if f.old_no_trailing_newline && old.ends_with('\n') {
+            old.pop();
+        }
         let entry = match f.fate % 4 {
             0 => (w.paths[i].clone(), Some(old), Some(new), None),
             1 => (w.paths[i].clone(), Some(old), Some(new), Some(format!("old_{i}_{}", w.paths[i].replace('/', "_")))),
@@ -559,8 +568,8 @@ pub fn file_strategy() -> BoxedStrategy<DFile> {
         .prop_map(|(name, affects, form, multiline, indent, tag_lines, severity)| Item::Open { name, affects, form, multiline, indent, tag_lines, severity });
     let close = (any::<u8>(), prop_oneof![3 => Just(0u8), 1 => 0u8..5]).prop_map(|(form, indent)| Item::Close { form, indent });
     let item = prop_oneof![2 => open, 2 => close, 5 => any::<u16>().prop_map(Item::Code)];
-    (0..SUFFIXES.len(), 0u8..4, proptest::collection::vec(item, 3..30), gitcase::edits_strategy(9), prop_oneof![6 => Just(0u8), 1 => Just(1u8), 1 => Just(2u8), 1 => Just(3u8)], proptest::bool::weighted(0.15))
-        .prop_map(|(suffix, dir, items, edits, fate, no_trailing_newline)| DFile { suffix, dir, items, edits, fate, no_trailing_newline })
+    (0..SUFFIXES.len(), 0u8..4, proptest::collection::vec(item, 3..30), gitcase::edits_strategy(9), prop_oneof![6 => Just(0u8), 1 => Just(1u8), 1 => Just(2u8), 1 => Just(3u8)], proptest::bool::weighted(0.15), proptest::bool::weighted(0.25))
+        .prop_map(|(suffix, dir, items, edits, fate, no_trailing_newline, old_no_trailing_newline)| DFile { suffix, dir, items, edits, fate, no_trailing_newline, old_no_trailing_newline })
         .boxed()
 }
 
@@ -606,7 +615,7 @@ pub fn small_scope_cases() -> Vec<DriftCase> {
     for sc in scripts {
         for unified in [0u8, 3] {
             out.push(DriftCase {
-                files: vec![DFile { suffix: py, dir: 0, items: items.clone(), edits: sc.clone(), fate: 0, no_trailing_newline: false }],
+                files: vec![DFile { suffix: py, dir: 0, items: items.clone(), edits: sc.clone(), fate: 0, no_trailing_newline: false, old_no_trailing_newline: false }],
                 mode: DiffMode { unified, kind: 0, algo: 0, renames: false },
                 hostile: false,
                 deleted_extra_file: false,
